@@ -15,6 +15,8 @@ Definition states_ok (sf : nat -> fctx) (sm : nat -> hcctx) (sh : nat -> hcc) : 
 
 Lemma indep_contract level sf sm sh : states_ok sf sm sh -> blk_contract strict_valid (blk_indep level sf sm sh).
 Proof. intros (H1 & H2 & H3). apply blk_indep_contract; assumption. Qed.
+Lemma indep_bytes level sf sm sh : states_ok sf sm sh -> blk_bytes (blk_indep level sf sm sh).
+Proof. intros (H1 & H2 & H3). apply blk_indep_bytes; assumption. Qed.
 
 Theorem c03_roundtrip_indep : forall level sf sm sh, states_ok sf sm sh ->
   forall c0 po ms F X,
@@ -66,7 +68,7 @@ Theorem c03_lossless_indep : forall level sf sm sh, states_ok sf sm sh ->
    FrameDChunk.drive_usingDict spec_decode (dict_of NoDict) o K s F ns caps [] 0 = FrameDChunk.VComplete X (zlen F)).
 Proof.
   intros level sf sm sh Hst c0 po ms F X Hpo Hunc HX HbX _ _ H.
-  exact (c03_lossless _ (strict_contract_spec _ (indep_contract level sf sm sh Hst)) (blk_indep_bytes level sf sm sh)
+  exact (c03_lossless _ (strict_contract_spec _ (indep_contract level sf sm sh Hst)) (indep_bytes level sf sm sh Hst)
            c0 po NoDict ms F X Hpo Hunc HX HbX H).
 Qed.
 
